@@ -45,9 +45,13 @@ func raceLogSize() int64 {
 
 var raceFrameRe = regexp.MustCompile(`github\.com/inbucket/inbucket/v3/pkg/([^\s(]+(?:\([^)]*\))?[^\s(]*)\(`)
 
-// raceReport returns a stable class (the innermost Inbucket frame of each of
-// the two conflicting accesses) and the report text.
-func raceReport(from int64) (class, detail string) {
+// raceReport returns a stable class (one Inbucket frame of each of the two
+// conflicting accesses) and the report text.  By default a report counts only
+// if the INNERMOST frame of both accesses is Inbucket code.  With stackPkg set
+// (e.g. "extension/luahost") it counts if both access stacks pass through
+// that Inbucket package, whatever library code is innermost: two tasks inside
+// the same library object which nothing in Inbucket orders.
+func raceReport(from int64, stackPkg string) (class, detail string) {
 	p := raceLogPath()
 	if p == "" {
 		return "unattributed", "(no GORACE log_path configured)"
@@ -58,29 +62,45 @@ func raceReport(from int64) (class, detail string) {
 	}
 	text := string(b[from:])
 	// one report = "WARNING: DATA RACE" ... "=================="; in each, the two
-	// access blocks start with "Write at"/"Read at"/"Previous write at"/"Previous read at";
-	// the line after the block header is the innermost frame of that access.
+	// access blocks start with "Write at"/"Read at"/"Previous write at"/"Previous read at"
+	// and list their frames (function line, then file line) up to an empty line.
 	var classes []string
 	for _, rep := range strings.Split(text, "WARNING: DATA RACE") {
 		lines := strings.Split(rep, "\n")
-		var frames []string
-		for i, ln := range lines {
-			t := strings.TrimSpace(ln)
-			if (strings.HasPrefix(t, "Write at") || strings.HasPrefix(t, "Read at") || strings.HasPrefix(t, "Previous write at") ||
-				strings.HasPrefix(t, "Previous read at")) && i+1 < len(lines) {
-				frames = append(frames, strings.TrimSpace(lines[i+1]))
+		var stacks [][]string
+		for i := 0; i < len(lines); i++ {
+			t := strings.TrimSpace(lines[i])
+			if strings.HasPrefix(t, "Write at") || strings.HasPrefix(t, "Read at") || strings.HasPrefix(t, "Previous write at") ||
+				strings.HasPrefix(t, "Previous read at") {
+				var st []string
+				for j := i + 1; j < len(lines) && strings.TrimSpace(lines[j]) != ""; j++ {
+					st = append(st, strings.TrimSpace(lines[j]))
+				}
+				stacks = append(stacks, st)
 			}
 		}
-		if len(frames) != 2 {
+		if len(stacks) != 2 {
 			continue
 		}
 		var fn []string
-		for _, f := range frames {
-			if m := raceFrameRe.FindStringSubmatch(f); m != nil {
-				fn = append(fn, m[1])
+		for _, st := range stacks {
+			if len(st) == 0 {
+				continue
+			}
+			if stackPkg == "" {
+				if m := raceFrameRe.FindStringSubmatch(st[0]); m != nil {
+					fn = append(fn, m[1])
+				}
+				continue
+			}
+			for _, f := range st {
+				if m := raceFrameRe.FindStringSubmatch(f); m != nil && strings.HasPrefix(m[1], stackPkg) {
+					fn = append(fn, m[1])
+					break
+				}
 			}
 		}
-		if len(fn) == 2 { // both conflicting accesses are in Inbucket code
+		if len(fn) == 2 {
 			sort.Strings(fn)
 			classes = append(classes, strings.Join(fn, "|"))
 			if detail == "" {
